@@ -13,6 +13,10 @@ NA = {
 PENDING = 'check not built yet in this session (see DESIGN.md section 8 build order); not claimed until it runs clean'
 
 LEVEL_TEXT = {
+    'C06': 'Bounded symbolic verification of the real runtime map.go (mapassign / mapaccess1,2 / mapdelete / mapclear / mapiterinit+next, growth and evacuation) against a ghost finite map: arbitrary (solver-chosen) hash function, symbolic keys and values, scripted and symbolic operation sequences within the stated lengths, including an all-colliding hash that forces overflow chains and same-size growth.',
+    'C07': 'Translation validation of generated multi-package programs in which 43 near-miss type pairs (one attribute apart: field names, tags, embedding, package of unexported names, variadic-ness, channel direction, generic instances, local types) and 12 (concrete type, interface) pairs meet at run time through assertion, type switch, ==, any-keyed maps and method calls: the oracle decides identity / method sets with go/types, llgo\'s descriptors (emitted IR) are interpreted by llgo\'s own runtime source (Implements, NewItab, EfaceEqual, typehash, map.go). Plus equivalence of every multiply-defined descriptor symbol.',
+    'C12': 'Translation validation of generated multi-package programs whose package-level variables depend on each other across files and packages and on external values: the synthesized initialisers (dependencies first, variables in dependency order, init functions in source order, once) are executed on llgo\'s IR of every package and compared, as external-call traces and results, with Go-specification initialisation order (go/ssa init functions) for every external value.',
+    'C14': 'Translation validation of naming-stress multi-package programs (same-named methods / functions / packages, nested closures in methods, generic functions, types and methods instantiated in several packages with local, aliased and composite type arguments, descriptor near-misses) plus a solver-checked merge-equivalence: every symbol that several modules define must be mergeable and its definitions equivalent (function bodies compared on arbitrary arguments, constant data structurally).',
     'C01': 'Translation validation of a corpus of core-language functions (branches, loops, labelled jumps, switch, multiple assignment, structs/arrays by value and through pointers, closures, methods, embedding, interfaces, type switches, generics, every range form, evaluation order, strings/slices): each function is executed under Go-specification semantics on its own unmodified go/ssa build and on the IR llgo\'s real pipeline emits (both before and after the default C-ABI transformation), with llgo\'s runtime entry points executed from their Go source; the solver proves equal results / panics / external-call traces for all argument values within the loop bound.',
     'C03': 'Translation validation of 130 one-statement functions bracketed by trace calls (index / slice / slice-to-array / make forms x every index type, nil dereferences, array lengths at index-type maxima) plus bounded symbolic verification of the runtime checks NewSlice3, StringSlice, MakeSlice and Assert* for all 64-bit argument values.',
     'C04': 'Translation validation of defer/panic/recover shapes (7 hand-written + 33 generated from a defer-shape grammar; 300 in the thorough tier): llgo\'s setjmp/longjmp + indirectbr defer machinery and its real runtime.Panic/Rethrow/Recover are executed symbolically against Go-specification defer semantics; deferred-call order and arguments (trace), named results and final panic state must agree for all inputs.',
@@ -26,6 +30,10 @@ LEVEL_TEXT = {
     'C18': 'Bounded symbolic verification of targets.Loader: the merge law for every field of Config (harness generated from the struct definition at check time) and inheritance resolution over all graphs on 2-3 nodes (chains, diamonds, cycles, self-loops, missing parents) against an independent reference, as a history of loads through one loader.',
 }
 NOTE = {
+    'C06': 'Maps with <= 9 live entries (<= 2 growths) in quick, key kinds uint64 / string-like / colliding; NaN keys, iteration order randomisation while growing and the compiler lowering of map operations (covered by C01 corpus entries only) are outside.',
+    'C07': 'The quantifier all pairs of types is met through the listed pairs only; reflect type comparison and the pure naming API sweep are outside (enumeration, not solver work). Counterexample replay: llc-14 build of every package + llgo\'s runtime IR vs the Go toolchain.',
+    'C12': 'Four program shapes (chain, diamond, pass-through package, function-valued initialisers); the entry module that calls runtime.init / main.init (internal/build main_module.go) is outside: the check starts at the root package initialiser.',
+    'C14': 'Three program shapes; linkname/export directives and C-callback wrappers are outside; equivalence of descriptor data is structural (private string constants compared by content).',
     'C01': 'The quantifier all programs is met only through the corpus (about 55 functions); loop bound 8; LLVM 14 binding as IR producer; optimisation level O2, linking, process exit codes and gc/nogc configuration are outside. Known finding: ssa_order_fix.',
     'C03': 'Signal delivery (SIGSEGV re-arming), channel and map panics and type-assertion panics are not part of this corpus; nil faults are modelled as accesses inside the unmapped 1 MiB nil region.',
     'C04': 'Goexit, goroutine-exit defers and O2 are outside; the corpus is fixed (not seeded) because llgo\'s defer lowering has known defects (two recorded known findings).',
